@@ -81,6 +81,13 @@ structure SC where
 def SC.new (scid : Nat) (name : String) : SC :=
   { scid := scid, name := name, st := SubChannel.init, proto := none, pendingData := some [], pendingClose := false }
 
+/-- a sequenced record as the L2 connection hands it to `Manager.got_record` -/
+inductive Rx where
+  | opn (seq scid : Nat) (name : String)
+  | data (seq scid : Nat) (d : Bytes)
+  | close (seq scid : Nat)
+  deriving DecidableEq, Repr
+
 structure Side where
   leader : Bool
   expected : Option (List String)         -- `dilate(expected_subprotocols=…)`; `none` = not given
@@ -93,6 +100,8 @@ structure Side where
   pendingOpens : List (String × List Nat) -- `_pending_opens`: name → deque of uids
   protoCount : Nat                        -- protocols built so far
   log : List Eff
+  parked : List Rx := []                  -- `DilatedConnectionProtocol._inbound_record_queue` of the current
+                                          -- connection: records that arrived between the KCM and `select()`
   deriving Repr
 
 abbrev Res := Side × Option Err
@@ -296,6 +305,19 @@ def gotRecord (seq : Nat) (handle : Side → Res) (s : Side) : Res :=
       | none => seq
     handle { s1 with highestAcked := some h' }
 
+/-- the same while `Outbound` has no connection yet (records drained by `select()` before
+    `connector_connection_made` → `use_connection`): `send_ack` → `send_if_connected` sends nothing -/
+def gotRecordNoAck (seq : Nat) (handle : Side → Res) (s : Side) : Res :=
+  let old := match s.highestAcked with
+    | some h => decide (seq ≤ h)
+    | none => false
+  if old then (s, none)
+  else
+    let h' := match s.highestAcked with
+      | some h => max h seq
+      | none => seq
+    handle { s with highestAcked := some h' }
+
 /-- `while pending: (t, addr) = pending.popleft(); self._connect(factory, t, addr)` -/
 def connectAll (k : PKind) : List Nat → Side → Res
   | [], s => (s, none)
@@ -344,7 +366,29 @@ inductive Op where
   | rxOpen (seq scid : Nat) (name : String)
   | rxData (seq scid : Nat) (d : Bytes)
   | rxClose (seq scid : Nat)
+  | park (r : Rx)                         -- a record arrives while the connection is still `selecting`
+  | select                                -- `DilatedConnectionProtocol.select(manager)`: drain the parked records
+  | lost                                  -- the L2 connection is gone (`Manager._stop_using_connection`)
   deriving DecidableEq, Repr
+
+def Rx.seq : Rx → Nat
+  | .opn q _ _ => q
+  | .data q _ _ => q
+  | .close q _ => q
+
+def Rx.handler : Rx → Side → Res
+  | .opn _ scid name => handleOpen scid name
+  | .data _ scid d => handleData scid d
+  | .close _ scid => handleClose scid
+
+/-- `process_inbound_queue`: `while q: r = q.pop(0); manager.got_record(r)` — oldest first; an
+    exception leaves the rest parked -/
+def selectRun : List Rx → Side → Res
+  | [], s => (s, none)
+  | r :: rs, s =>
+    match gotRecordNoAck r.seq r.handler s with
+    | (s', none) => selectRun rs s'
+    | (s', some e) => ({ s' with parked := rs }, some e)
 
 def step (s : Side) : Op → Res
   | .connect name k => connect name k s
@@ -364,6 +408,11 @@ def step (s : Side) : Op → Res
   | .rxOpen seq scid name => gotRecord seq (handleOpen scid name) s
   | .rxData seq scid d => gotRecord seq (handleData scid d) s
   | .rxClose seq scid => gotRecord seq (handleClose scid) s
+  | .park r => ({ s with parked := s.parked ++ [r] }, none)
+  | .select => selectRun s.parked { s with parked := [] }
+  -- `Inbound.stop_using_connection` forgets the connection only: `_highest_inbound_acked` survives, so
+  -- what the peer re-sends is recognised as old; the dead protocol object takes its parked records along
+  | .lost => ({ s with parked := [] }, none)
 
 /-- run a whole history; exceptions are reported to the caller of that one operation and the
     side carries on with whatever the operation had already changed (as the real objects do) -/
@@ -382,6 +431,14 @@ def wireOp : Eff → Option Op
 
 def wire (log : List Eff) : List Op := log.filterMap wireOp
 
+def wireRx : Eff → Option Rx
+  | .txOpen q c n => some (.opn q c n)
+  | .txData q c d => some (.data q c d)
+  | .txClose q c => some (.close q c)
+  | _ => none
+
+def wireR (log : List Eff) : List Rx := log.filterMap wireRx
+
 structure World where
   a : Side
   b : Side
@@ -391,6 +448,7 @@ structure World where
 inductive WOp where
   | onA (o : Op) | onB (o : Op)     -- application call or injected record on one side
   | deliverAB | deliverBA           -- the next record in flight arrives
+  | parkAB | parkBA                 -- … while the receiver's connection is still `selecting`: it is parked
   deriving Repr
 
 def wstep (w : World) : WOp → World × Option Err
@@ -404,6 +462,15 @@ def wstep (w : World) : WOp → World × Option Err
     match (wire w.b.log)[w.dBA]? with
     | none => (w, none)
     | some o => let r := step w.a o; ({ w with a := r.1, dBA := w.dBA + 1 }, r.2)
+
+  | .parkAB =>
+    match (wireR w.a.log)[w.dAB]? with
+    | none => (w, none)
+    | some r => let x := step w.b (.park r); ({ w with b := x.1, dAB := w.dAB + 1 }, x.2)
+  | .parkBA =>
+    match (wireR w.b.log)[w.dBA]? with
+    | none => (w, none)
+    | some r => let x := step w.a (.park r); ({ w with a := x.1, dBA := w.dBA + 1 }, x.2)
 
 def wrun (w : World) : List WOp → World
   | [] => w
@@ -427,6 +494,10 @@ A|B lose <pid>
 A|B losew <pid>
 A|B rx open|data|close <seq> <scid> [<hex>]      (a record injected from outside)
 deliver A|B                                        (next record sent by A|B arrives at the other side)
+park A|B                                           (… while the receiver is still `selecting`: parked)
+A|B parkrx open|data|close <seq> <scid> [<hex>]    (an explicit record is parked: a re-sent one)
+A|B select                                         (select(): the parked records are drained, oldest first, no acks)
+A|B lost                                           (the L2 connection is gone)
 ```
 Output: the effects of that operation on the side it ran on, the exception class if one was
 raised, then `| open=[scid:state …] pend=[hexname:n …]`.
@@ -451,7 +522,7 @@ def showSide (s : Side) : String :=
     | some sc => s!"{scid}:{SubChannel.State.name sc.st}"
     | none => s!"{scid}:?"
   let pend := s.pendingOpens.map fun (n, l) => s!"{hexOfStr n}:{l.length}"
-  s!"open=[{" ".intercalate opens}] pend=[{" ".intercalate pend}]"
+  s!"open=[{" ".intercalate opens}] pend=[{" ".intercalate pend}] park={s.parked.length}"
 
 def showStep (before : Side) (r : Res) : String :=
   let effs := (r.1.log.drop before.log.length).map showEff
@@ -479,6 +550,11 @@ def readOp? : List String → Option Op
   | ["rx", "open", q, c, n] => do pure (.rxOpen (← q.toNat?) (← c.toNat?) (← strOfHex? n))
   | ["rx", "data", q, c, d] => do pure (.rxData (← q.toNat?) (← c.toNat?) (← fromHex? d))
   | ["rx", "close", q, c] => do pure (.rxClose (← q.toNat?) (← c.toNat?))
+  | ["parkrx", "open", q, c, n] => do pure (.park (.opn (← q.toNat?) (← c.toNat?) (← strOfHex? n)))
+  | ["parkrx", "data", q, c, d] => do pure (.park (.data (← q.toNat?) (← c.toNat?) (← fromHex? d)))
+  | ["parkrx", "close", q, c] => do pure (.park (.close (← q.toNat?) (← c.toNat?)))
+  | ["select"] => some .select
+  | ["lost"] => some .lost
   | _ => none
 
 def drvInit : World :=
@@ -502,6 +578,14 @@ def dstep (w : World) (line : String) : World × String :=
     match (wire w.b.log)[w.dBA]? with
     | none => (w, "empty")
     | some _ => let r := wstep w .deliverBA; (r.1, showStep w.a (r.1.a, r.2))
+  | ["park", "A"] =>
+    match (wireR w.a.log)[w.dAB]? with
+    | none => (w, "empty")
+    | some _ => let r := wstep w .parkAB; (r.1, showStep w.b (r.1.b, r.2))
+  | ["park", "B"] =>
+    match (wireR w.b.log)[w.dBA]? with
+    | none => (w, "empty")
+    | some _ => let r := wstep w .parkBA; (r.1, showStep w.a (r.1.a, r.2))
   | "A" :: rest =>
     match readOp? rest with
     | some o => let r := wstep w (.onA o); (r.1, showStep w.a (r.1.a, r.2))
